@@ -687,12 +687,13 @@ def selftest(texts=None, base=None):
         base_text, _ = translate(texts)
     except TranslationError as e:
         return [("translator-selftest", True, "skipped: the source under test does not translate (%s)" % e)]
-    seen, details = 0, []
+    seen, applied, details, notes = 0, 0, [], []
     for name, f, old, new, occ in EDITS:
         ed = _edit(texts, f, old, new, occ)
         if ed is None:
-            details.append(name + ": the text to edit is no longer in the source")
+            notes.append(name + ": not applicable (the text to edit is not in the source under test)")
             continue
+        applied += 1
         try:
             t, _ = translate(ed)
             if _defs_only(t) != _defs_only(base_text):
@@ -701,12 +702,13 @@ def selftest(texts=None, base=None):
                 details.append(name + ": NOT SEEN (same definitions)")
         except TranslationError:
             seen += 1
-    harmless_ok = 0
+    harmless_ok = harmless_applied = 0
     for name, f, old, new, occ in HARMLESS:
         ed = _edit(texts, f, old, new, occ)
         if ed is None:
-            details.append(name + ": the text to edit is no longer in the source")
+            notes.append(name + ": not applicable")
             continue
+        harmless_applied += 1
         try:
             t, _ = translate(ed)
             if _defs_only(t) == _defs_only(base_text):
@@ -715,9 +717,27 @@ def selftest(texts=None, base=None):
                 details.append(name + ": a harmless edit changed the definitions")
         except TranslationError as e:
             details.append(name + ": a harmless edit was refused: %s" % e)
+    if applied < 4:
+        details.append("fewer than 4 of the %d edits apply to the source under test" % len(EDITS))
     return [("translator-selftest", not details,
-             "%d/%d edits seen, %d/%d harmless edits normalised away%s" % (
-                 seen, len(EDITS), harmless_ok, len(HARMLESS), ("; " + "; ".join(details)) if details else ""))]
+             "%d/%d applicable edits seen (of %d), %d/%d harmless edits normalised away%s" % (
+                 seen, applied, len(EDITS), harmless_ok, harmless_applied,
+                 "".join("; " + d for d in details + notes)))]
+
+
+def changed_defs(a, b):
+    """names of the generated definitions whose text differs between two Gen texts"""
+    def blocks(t):
+        out, cur = {}, None
+        for l in _defs_only(t).splitlines():
+            if l.startswith("def "):
+                cur = l.split()[1]
+                out[cur] = []
+            if cur is not None:
+                out[cur].append(l)
+        return out
+    x, y = blocks(a), blocks(b)
+    return sorted(k for k in set(x) | set(y) if x.get(k) != y.get(k))
 
 
 if __name__ == "__main__":
